@@ -32,6 +32,8 @@ TARGETS = [  # (spelling, expectation class) ; @J@ is the jail directory
     ("secret/s", "denied"), ("@J@/secret/../secret/t", "denied"), ("askme/a", "ungranted"),
     ("/dev/null", "sink"), ("&1", "sink"), ("&2", "sink"), ("&-", "sink"), ("-", "ungranted"), ("/dev/stdout", "sink"),
     ('"&2"', "ungranted"), ("2", "ungranted"), ("out/$(ls)", "ungranted"),
+    # a quoted or escaped ~ is not the home directory (which the configuration grants): the file is ./~/q
+    ('"~/q"', "ungranted"), ("'~/q'", "ungranted"), ("\\~/q", "ungranted"), ('"~"/q', "ungranted"), ("~/q", "granted"),
 ]
 NODES = [
     ("simple", "ls {R}"), ("simple-pre", "{R} ls"), ("only-redirect", "{R}"), ("brace", "{ ls; } {R}"), ("subshell", "( ls ) {R}"),
@@ -85,6 +87,10 @@ def programs(tier, rng):
         out.append(("cd-sequence", p.replace("out/g", "nogrant"), "?"))
     for tmpl, tgt in itertools.product(TOOLS, TOOL_TARGETS):
         out.append(("tool:" + tmpl.split()[0 if not tmpl.startswith("cat f |") else 3], tmpl.replace("{T}", tgt), "?"))
+        # ... and the same command ending in a help-looking word: it still writes the file (sort -o f -h sorts)
+        if tgt in ("nogrant", "secret/s") and "{T}" in tmpl:
+            for h in ("-h", "--help", "--version"):
+                out.append(("tool-help:" + tmpl.split()[0 if not tmpl.startswith("cat f |") else 3], tmpl.replace("{T}", tgt) + " " + h, "?"))
     # a directory change in every slot of every compound before / beside a relative write (ground truth decides)
     for label, text in bx.cd_write_programs(tier, rng):
         out.append((label, text, "?"))
